@@ -47,6 +47,12 @@ pub fn mlar_s(args: &[&str], cwd: &Path) -> std::io::Result<Output> {
     Command::new(mlar_path()).args(args).current_dir(cwd).stdin(Stdio::null()).output()
 }
 
+/// mlar with its standard error connected to a device that refuses every write (/dev/full: ENOSPC)
+pub fn mlar_stderr_full(args: &[&str], cwd: &Path) -> std::io::Result<Output> {
+    let full = std::fs::OpenOptions::new().write(true).open("/dev/full")?;
+    Command::new(mlar_path()).args(args).current_dir(cwd).stdin(Stdio::null()).stderr(full).output()
+}
+
 pub fn describe(o: &Output) -> String {
     let e = String::from_utf8_lossy(&o.stderr);
     let e = e.trim();
